@@ -6,10 +6,26 @@ from vlib.runner import Ob
 # /repo is touched) - used to show that with the patches the obligations discharge.
 PROPOSED_PATCH = {
     "daemon/proxyd.c": [
-        # SERVICE_REQ: clamp the client supplied strictness before it is used as an array index (as CONNECT_REQ does)
+        # A. SERVICE_REQ: clamp the client supplied strictness before it is used as an array index (as CONNECT_REQ does)
         (r"(            if \( vbi_proxyd_take_service_req\(req, pBody->service_req\.services,)",
          "            if (pBody->service_req.strict < VBI_MIN_STRICT) pBody->service_req.strict = VBI_MIN_STRICT;\n"
          "            else if (pBody->service_req.strict > VBI_MAX_STRICT) pBody->service_req.strict = VBI_MAX_STRICT;\n\\1"),
+        # C. NOTIFY(TOKEN): only a client that has (or is being given) the token can return it
+        (r"else if \(pBody->chn_notify_req\.notify_flags & VBI_PROXY_CHN_TOKEN\)",
+         "else if ((pBody->chn_notify_req.notify_flags & VBI_PROXY_CHN_TOKEN) && (req->chn_state.token_state != REQ_TOKEN_NONE))"),
+        # D. channel_update: flush only an open device
+        (r"if \(forced_switch\)\n(\s*)\{\n(\s*)vbi_capture_flush\(p_proxy_dev->p_capture\);",
+         "if (forced_switch && (p_proxy_dev->p_capture != NULL))\n\\1{\n\\2vbi_capture_flush(p_proxy_dev->p_capture);"),
+    ],
+    "src/proxy-msg.c": [
+        # E. a header with an illegal length ends the read: do not enter phase two (assert / recv with an underflowed size)
+        (r"if \(\(err == FALSE\) && \(pIO->readOff >= sizeof\(VBIPROXY_MSG_HEADER\)\)\)\n(\s*)\{  /\* in read phase two",
+         "if ((err == FALSE) && (result != FALSE) && (pIO->readOff >= sizeof(VBIPROXY_MSG_HEADER)))\n\\1{  /* in read phase two"),
+        # B. a partially received message is a legal I/O state: "not idle", no assertion
+        (r"vbi_bool vbi_proxy_msg_read_idle\( VBIPROXY_MSG_STATE \* pIO \)\n\{\n\s*assert\(\(pIO->readOff == 0\) \|\| \(pIO->readOff == pIO->readLen\)\);\n",
+         "vbi_bool vbi_proxy_msg_read_idle( VBIPROXY_MSG_STATE * pIO )\n{\n"),
+        (r"vbi_bool vbi_proxy_msg_is_idle\( VBIPROXY_MSG_STATE \* pIO \)\n\{\n\s*assert\(\(pIO->readOff == 0\) \|\| \(pIO->readOff == pIO->readLen\)\);\n",
+         "vbi_bool vbi_proxy_msg_is_idle( VBIPROXY_MSG_STATE * pIO )\n{\n"),
     ],
 }
 
@@ -24,20 +40,59 @@ UB_IGNORE = [r"arithmetic overflow on signed - in p_walk->chn_profile\.min_durat
 
 def obligations(tier, seed):
     patch = PROPOSED_PATCH if os.environ.get("C19_PROPOSED_PATCH") == "1" else None
-    common = dict(harness="h_c19.c", units=U, models=M, stubs=STUBS, patch=patch, ignore=UB_IGNORE)
-    uw = {"_vbi_strlcpy.0": 130, "memcmp.0": 18}
-    names = {0: "CONNECT_REQ", 3: "CLOSE_REQ", 5: "SERVICE_REQ", 8: "CHN_TOKEN_REQ", 11: "CHN_NOTIFY_REQ", 14: "CHN_RECLAIM_CNF",
-             15: "CHN_SUSPEND_REQ", 18: "CHN_IOCTL_REQ", 22: "DAEMON_PID_REQ", 99: "any other type"}
-    msg_q = []
-    for t in (0, 3, 5, 8, 11, 14, 15, 18, 22):
-        msg_q.append(dict(MSGT=t, NCL=2, ACT=0, BDEV=0, DEVOPEN=1, NQ=1))
-    for t in (0, 5, 11, 18):
-        msg_q.append(dict(MSGT=t, NCL=2, ACT=1, BDEV=0, DEVOPEN=0, NQ=0))
+    RB = ["vbi_proxyd_acq_thread"]     # acquisition-thread mode is outside the claim; CBMC would otherwise treat the thread body as a target of capture->method() calls
+    common = dict(harness="h_c19.c", units=U, models=M, stubs=STUBS, patch=patch, ignore=UB_IGNORE, remove_bodies=RB)
+    uw = {"_vbi_strlcpy.0": 130, "memcmp.0": 18, "recv.0": 17, "c19_log_send.1": 17, "h_msg.3": 110}
+    INV = ["daemon invariant between events (asserted again after every step): <= 1 client per device with token_state != NONE, scheduler cycle_count in 0..2, "
+           "time stamps in [0,2^32), device open <=> capture+decoder present, frame queue: every queued frame referenced exactly by the clients at or before it, "
+           "never both queued and free, cursors inside the queue; connections are WAIT_CON_REQ (as vbi_proxyd_add_connection leaves them) or FORWARD"]
+    WORLD = ("-buffers 1; every client asks for 1 buffer; device 0 open with 2 one-line frame buffers (NQ queued, cursors symbolic) or closed, device 1 closed; "
+             "clock in [0,2^32); update_services: first 4 calls scripted, later ones grant nothing")
+    g = lambda **kw: dict(kw)
+    # ---- (1) message handling ----
+    msg_q = [g(MSGT=t, NCL=2, ACT=0, BDEV=0, DEVOPEN=1, NQ=1) for t in (3, 8, 11, 14, 15, 18, 22)]
+    msg_q += [g(MSGT=0, NCL=2, ACT=0, BDEV=0, DEVOPEN=1, NQ=1, STRICTV=v) for v in (-128, 0, 2, 127)]
+    msg_q += [g(MSGT=5, NCL=2, ACT=0, BDEV=0, DEVOPEN=1, NQ=1, STRICTV=v) for v in (-1, 2)]
+    msg_q += [g(MSGT=5, NCL=2, ACT=0, BDEV=0, DEVOPEN=1, NQ=1, STRICTV=v) for v in (-2, 3, 23)]      # out of range: refuted on a tree without the clamp
+    msg_q += [g(MSGT=11, NCL=2, ACT=1, BDEV=0, DEVOPEN=0, NQ=0), g(MSGT=18, NCL=2, ACT=1, BDEV=0, DEVOPEN=0, NQ=0, DEVCASE=0),
+              g(MSGT=0, NCL=2, ACT=1, BDEV=0, DEVOPEN=0, NQ=0, DEVCASE=3, STRICTV=1)]
     msg_t = list(msg_q)
-    for t in (0, 3, 5, 8, 11, 14, 18):
-        msg_t.append(dict(MSGT=t, NCL=2, ACT=1, BDEV=0, DEVOPEN=1, NQ=2))
-        msg_t.append(dict(MSGT=t, NCL=2, ACT=0, BDEV=1, DEVOPEN=1, NQ=1))
+    msg_t += [g(MSGT=0, NCL=2, ACT=0, BDEV=0, DEVOPEN=1, NQ=1), g(MSGT=5, NCL=2, ACT=0, BDEV=0, DEVOPEN=1, NQ=1)]          # strictness symbolic
+    msg_t += [g(MSGT=t, NCL=2, ACT=1, BDEV=0, DEVOPEN=0, NQ=0, DEVCASE=c, STRICTV=0) for t in (0, 5) for c in (0, 1, 2, 3, 4)]
+    msg_t += [g(MSGT=18, NCL=2, ACT=1, BDEV=0, DEVOPEN=0, NQ=0, DEVCASE=c) for c in (1, 2, 3, 4)]
+    msg_t += [g(MSGT=t, NCL=2, ACT=1, BDEV=0, DEVOPEN=1, NQ=2) for t in (3, 8, 11, 14, 18)]
+    msg_t += [g(MSGT=t, NCL=2, ACT=0, BDEV=1, DEVOPEN=1, NQ=1) for t in (3, 8, 11, 14)]
+    tok_q = [g(MSGT=8, NCL=3, ACT=0, BDEV=0, DEVOPEN=1, NQ=0), g(MSGT=8, NCL=3, ACT=2, BDEV=0, DEVOPEN=1, NQ=0),
+             g(MSGT=11, NCL=3, ACT=1, BDEV=0, DEVOPEN=1, NQ=1), g(MSGT=14, NCL=3, ACT=1, BDEV=0, DEVOPEN=1, NQ=0),
+             g(MSGT=11, NCL=3, ACT=0, BDEV=1, DEVOPEN=1, NQ=0), g(MSGT=3, NCL=3, ACT=1, BDEV=0, DEVOPEN=1, NQ=1)]
+    tok_t = [g(MSGT=t, NCL=3, ACT=a, BDEV=b, DEVOPEN=1, NQ=q) for t in (8, 11, 14, 3) for a in (0, 1, 2) for (b, q) in ((0, 0), (0, 2), (1, 1))]
     obs = [
+        Ob("read_framing", func="h_read", unwind=8, unwindset={"h_read.2": 200, "recv.0": 49},
+           desc="message framing: vbi_proxy_msg_handle_read driven as the daemon drives it (3 event-loop iterations; vbi_proxy_msg_read_idle / _is_idle / _check_timeout "
+                "called where vbi_proxyd_get_fd_set and vbi_proxyd_handle_client_sockets call them) on a client byte stream of arbitrary content, delivered by recv() in "
+                "arbitrary chunks, with EAGAIN/EINTR/ECONNRESET and orderly shutdown at any byte: no assert() of the real code fails, nothing is written outside the "
+                "exact-size message buffer (any length field, in particular > buffer and < header size), offsets stay inside the buffer, and a completed message equals the "
+                "stream bytes (length/type in network order)",
+           encodes=["vbi_proxy_msg_handle_read", "vbi_proxy_msg_read_idle", "vbi_proxy_msg_is_idle", "vbi_proxy_msg_close_read", "vbi_proxy_msg_check_timeout"],
+           bounds="3 calls (<= 6 recv); buffer of RBUF bytes (RBUF=0: sizeof(VBIPROXY_MSG)=992, the daemon's), recv delivers <= C19_MAXCHUNK bytes per call; stream <= 6*C19_MAXCHUNK bytes",
+           outside="more than 3 reads per message; argument that handle_read is parametric in max_read_len is by reading, not by the solver",
+           grid=[g(RBUF=24, C19_MAXCHUNK=32, C19_NIO=6), g(RBUF=40, C19_MAXCHUNK=16, C19_NIO=6), g(RBUF=0, C19_MAXCHUNK=16, C19_NIO=6)],
+           quick_grid=[g(RBUF=24, C19_MAXCHUNK=32, C19_NIO=6), g(RBUF=40, C19_MAXCHUNK=16, C19_NIO=6)],
+           reach=["end", "dropped", "complete", "partial"], timeout=900, mem_gb=5, vin_size=512, **common),
+        Ob("event_loop", func="h_loop", unwind=6, unwindset=uw,
+           desc="event loop body on faulty streams: LOOPS iterations of the REAL vbi_proxyd_get_fd_set + (select: any subset ready) + vbi_proxyd_handle_client_sockets for NCL "
+                "connections without services (device closed): every connection is watched, a dropped connection is closed once, unlinked and freed, the client count is "
+                "right, read offsets stay inside msg_buf, a connection that was not ready and did not time out is untouched; invariant kept.  Message semantics are "
+                "abstracted here (check_msg/take_message: any result, no effect) - they are the subject of msg_take",
+           encodes=["vbi_proxyd_handle_client_sockets", "vbi_proxyd_get_fd_set", "vbi_proxy_msg_handle_read", "vbi_proxy_msg_handle_write", "vbi_proxyd_close",
+                    "vbi_proxy_msg_close_io", "vbi_proxy_msg_check_timeout", "vbi_proxy_msg_write"],
+           bounds="LOOPS iterations, NCL connections, <= C19_NIO recv and send calls, recv <= C19_MAXCHUNK bytes per call; " + WORLD, assumes=INV,
+           outside="connections with services / queued frames (disconnect, upd_services obligations)",
+           grid=[g(NCL=2, LOOPS=2, C19_MAXCHUNK=8, C19_NIO=3), g(NCL=1, LOOPS=3, C19_MAXCHUNK=8, C19_NIO=4)],
+           quick_grid=[g(NCL=1, LOOPS=2, C19_MAXCHUNK=8, C19_NIO=3), g(NCL=2, LOOPS=2, C19_MAXCHUNK=4, C19_NIO=2)],
+           remove_bodies=RB + ["vbi_proxyd_check_msg", "vbi_proxyd_take_message"],
+           reach=["end", "dropped", "survived"], timeout=900, mem_gb=5, vin_size=2048,
+           **{k: v for k, v in common.items() if k != "remove_bodies"}),
         Ob("msg_take", func="h_msg", unwind=6, unwindset=uw,
            desc="message robustness: vbi_proxyd_check_msg + vbi_proxyd_take_message (+ the glue of vbi_proxyd_handle_client_sockets, proxyd.c:2413-2428) on a fully "
                 "symbolic message buffer (length, every body byte), message type case-split on the grid (all 9 request types + 'any other value'), in every connection "
@@ -48,16 +103,57 @@ def obligations(tier, seed):
                     "vbi_proxy_stop_acquisition", "vbi_proxy_queue_allocate", "vbi_proxy_queue_release_sliced", "vbi_proxyd_channel_update", "vbi_proxyd_channel_schedule",
                     "vbi_proxyd_token_grant", "vbi_proxyd_channel_flush", "vbi_proxyd_update_scanning", "vbi_proxyd_take_ioctl_req", "vbi_proxy_msg_check_ioctl",
                     "vbi_proxyd_close", "vbi_proxy_msg_write", "vbi_proxy_msg_close_io", "vbi_capture_* wrappers (inout.c)"],
-           bounds="one message; 2 clients (acting client first or last in the list, the other on the same or the other device); device 0 open with 2 frame buffers "
-                  "(0..2 queued, cursors symbolic) or closed; -buffers 1; clients ask for <= 2 buffers; clock in [0,2^32); histories of any length by induction over the invariant",
-           assumes=["daemon invariant between events (asserted again after the step): <=1 token owner per device, cycle_count in 0..2, device/queue consistency, "
-                    "WAIT_CON_REQ clients as vbi_proxyd_add_connection leaves them", "header as vbi_proxy_msg_handle_read leaves it: 8 <= len <= sizeof msg_buf (obligation read_framing)"],
-           outside="acquisition-thread mode; more than 2 clients (token obligations use 3); raw (VBI_SLICED_VBI_625/525) buffers",
-           grid=msg_t, quick_grid=msg_q, reach=["end", "accepted", "rejected"], timeout=400, mem_gb=4, vin_size=4096, **common),
-        Ob("msg_other", func="h_msg", unwind=6, unwindset=uw, defines=dict(MSGT=99, NCL=2, ACT=0, BDEV=0, DEVOPEN=1, NQ=1),
-           desc="message robustness, every message type that is not a client request (daemon-to-client types and all values >= MSG_TYPE_COUNT, type symbolic): "
-                "rejected, connection closed, nothing else changes",
-           encodes=["vbi_proxyd_check_msg", "vbi_proxyd_close", "vbi_proxy_queue_release_sliced"], bounds="as msg_take",
+           bounds="one message; 2 clients (acting client first or last in the list, the other on the same or the other device); CONNECT/SERVICE: strictness field "
+                  "concrete from the grid (quick: -128,0,2,127 / -2,-1,2,3,23) or symbolic (thorough); device closed: outcome of opening it case-split (DEVCASE); " + WORLD +
+                  "; histories of any length by induction over the invariant",
+           assumes=INV + ["header as vbi_proxy_msg_handle_read leaves it: 8 <= len <= sizeof msg_buf (obligation read_framing)"],
+           outside="acquisition-thread mode; raw (VBI_SLICED_VBI_625/525) buffers; clients asking for more than 1 buffer (allocation loop bound)",
+           grid=msg_t, quick_grid=msg_q, reach=["end", "accepted", "rejected"], timeout=600, mem_gb=5, vin_size=4096, **common),
+        Ob("msg_other", func="h_msg", unwind=6, unwindset=uw,
+           desc="message robustness, every message type that is not a client request (MSGT=99: daemon-to-client types and all values >= MSG_TYPE_COUNT, type symbolic; "
+                "MSGT=23: DAEMON_PID_CNF, which check_msg lets pass): rejected, connection closed, nothing else changes",
+           encodes=["vbi_proxyd_check_msg", "vbi_proxyd_take_message", "vbi_proxyd_close", "vbi_proxy_queue_release_sliced"], bounds="as msg_take", assumes=INV,
+           grid=[g(MSGT=99, NCL=2, ACT=0, BDEV=0, DEVOPEN=1, NQ=1), g(MSGT=23, NCL=2, ACT=0, BDEV=0, DEVOPEN=1, NQ=1)],
            reach=["end", "rejected"], timeout=300, mem_gb=3, vin_size=4096, **common),
+        # ---- (3) token ----
+        Ob("token_step", func="h_msg", unwind=6, unwindset=uw,
+           desc="token exclusivity INV-STEP over 3 clients: from every state with at most one token owner per device, one message of any client (TOKEN_REQ with arbitrary "
+                "priority/profile, NOTIFY with arbitrary flags, RECLAIM_CNF, CLOSE_REQ; message bytes symbolic) keeps 'at most one client of a device controls the channel' and "
+                "'at most one token owner'; step relation (one-step history): a client that has the token (GRANTED / RECLAIM / RELEASE) loses it only by its own TOKEN_REQ, "
+                "NOTIFY(RELEASE|TOKEN), RECLAIM_CNF or close; a client is newly granted only when nobody else still has the token, and only if it asked (valid profile, "
+                "background priority); a client becomes channel owner (RETURNED) only from a state in which it was assigned the token",
+           encodes=["vbi_proxyd_take_message", "vbi_proxyd_channel_update", "vbi_proxyd_channel_schedule", "vbi_proxyd_channel_stopped", "vbi_proxyd_channel_completed",
+                    "vbi_proxyd_token_grant", "vbi_proxyd_get_token_owner", "vbi_proxyd_channel_timer_update", "vbi_proxyd_channel_flush", "vbi_proxyd_close"],
+           bounds="one message; 3 clients, acting client at each list position, last client on the same or the other device; " + WORLD, assumes=INV,
+           outside="more than 3 clients (scheduler comparisons are pairwise; not proved by the solver)",
+           grid=tok_t, quick_grid=tok_q, reach=["end", "accepted"], timeout=400, mem_gb=3, vin_size=4096, **common),
+        Ob("token_timer", func="h_timer", unwind=6, unwindset=uw,
+           desc="token exclusivity INV-STEP, scheduler alarm: vbi_proxyd_channel_timer with a symbolic clock from every invariant state of 3 clients: invariant and step relation "
+                "as token_step (nobody loses a token it holds except by reclaim, which keeps it assigned; grants only to clients that asked); only scheduler state changes",
+           encodes=["vbi_proxyd_channel_timer", "vbi_proxyd_channel_update", "vbi_proxyd_channel_schedule", "vbi_proxyd_token_grant", "vbi_proxyd_channel_timer_update"],
+           bounds="one timer event; " + WORLD, assumes=INV,
+           grid=[g(NCL=3, BDEV=0, DEVOPEN=1, NQ=0), g(NCL=3, BDEV=1, DEVOPEN=1, NQ=0), g(NCL=2, BDEV=0, DEVOPEN=0, NQ=0)],
+           reach=["end", "rescheduled"], timeout=300, mem_gb=3, vin_size=4096, **common),
+        # ---- (2) disconnect ----
+        Ob("disconnect", func="h_drop", unwind=6, unwindset=uw,
+           desc="disconnect at any point: REAL vbi_proxyd_close on a client in every connection state / token state / queue cursor / I/O state, then the unlink step of "
+                "vbi_proxyd_handle_client_sockets (proxyd.c:2516-2544 replicated, REAL vbi_proxyd_channel_update): socket closed once, write buffer dropped, all queue "
+                "references released (queue invariant without the client: frames nobody else needs are free again, never both queued and free), the token it held is gone "
+                "with it, no other client loses a token or any connection state, a client granted now had asked",
+           encodes=["vbi_proxyd_close", "vbi_proxy_queue_release_sliced", "vbi_proxy_msg_close_io", "vbi_proxyd_channel_update", "vbi_proxyd_channel_schedule", "vbi_proxyd_token_grant"],
+           bounds="3 clients, dropped client at each list position; NQ = 0..2 queued frames, cursors symbolic; " + WORLD, assumes=INV,
+           outside="the list surgery of vbi_proxyd_handle_client_sockets itself is replicated in the harness here (it runs for real in event_loop, without services)",
+           grid=[g(NCL=3, ACT=a, BDEV=b, DEVOPEN=1, NQ=q) for a in (0, 1, 2) for (b, q) in ((0, 0), (0, 1), (0, 2), (1, 1))] + [g(NCL=2, ACT=0, BDEV=0, DEVOPEN=0, NQ=0)],
+           quick_grid=[g(NCL=3, ACT=0, BDEV=0, DEVOPEN=1, NQ=2), g(NCL=3, ACT=1, BDEV=0, DEVOPEN=1, NQ=1), g(NCL=3, ACT=2, BDEV=1, DEVOPEN=1, NQ=1),
+                       g(NCL=2, ACT=0, BDEV=0, DEVOPEN=0, NQ=0)],
+           reach=["end"], timeout=300, mem_gb=3, vin_size=4096, **common),
+        Ob("upd_services", func="h_upd", unwind=6, unwindset=uw,
+           desc="service re-computation after a client left: vbi_proxyd_update_services(dev, NULL, 0, NULL) (proxyd.c:2540) from every invariant state: requests, tokens and "
+                "connections untouched, the device stays open exactly for the union of what is granted and is closed (buffers freed) when nothing is; invariant kept",
+           encodes=["vbi_proxyd_update_services", "vbi_proxy_queue_allocate", "vbi_proxy_stop_acquisition", "vbi_proxy_start_acquisition", "vbi_proxyd_update_scanning"],
+           bounds="2..3 clients; " + WORLD, assumes=INV,
+           grid=[g(NCL=2, BDEV=0, DEVOPEN=1, NQ=1), g(NCL=3, BDEV=1, DEVOPEN=1, NQ=0), g(NCL=2, BDEV=0, DEVOPEN=1, NQ=2)],
+           quick_grid=[g(NCL=2, BDEV=0, DEVOPEN=1, NQ=1), g(NCL=3, BDEV=1, DEVOPEN=1, NQ=0)],
+           reach=["end", "open", "closed"], timeout=400, mem_gb=4, vin_size=4096, **common),
     ]
     return obs
